@@ -574,7 +574,14 @@ def explore_lattice(region, N, budget, post, max_exec):
         _reset()
         try:
             p = region.uniformPointInner()
-        except RejectionException:
+        except RejectionException as e:
+            # MeshVolumeRegion draws num_samples >= 8 candidates per call (sized for 99% success)
+            # and raises only if all miss.  The seam gives it one candidate; its failure is
+            # therefore a retry inside the same discrete branch, not a rejection of the sample
+            # (otherwise mesh operands of a union would look under-weighted by their
+            # bounding-box fill ratio, which the library's batch makes <= 1%).
+            if "Rejection sampling MeshVolumeRegion failed" in str(e):
+                return "RETRY"
             return "REJECT"
         except _Cut as c:
             return "RETRY" if c.retry else "CUT"
@@ -859,6 +866,11 @@ def _aligned_edges(obs, lo, hi, G, N):
     return edges
 
 
+def _box_radius(obs):
+    acc = obs["accepted"]
+    return float(np.linalg.norm(obs["H"][acc], axis=1).max()) if acc.any() else 0.0
+
+
 def _accumulate_obs(grid, obs):
     """cell sums of the observed items.  Branches with a retry loop are accumulated
     separately: whatever the uncertainty of their renormalisation, the mass such a branch puts
@@ -906,9 +918,13 @@ def _judge(shape, obs, G, q, N):
         raise M.Unsupported("unbounded")
     grid = M.Grid(_aligned_edges(obs, lo, hi, G, N))
     quad = M.Quadrature(shape, grid, q)
-    elo, ehi = quad.cells()
+    # D: largest radius of the image of a lattice box.  The lattice cannot resolve features of
+    # the region thinner than D: the expected share of a cell is bracketed by the part of the
+    # region deeper than D (lower) and by the D-neighbourhood of the region (upper)
+    D = _box_radius(obs)
+    elo, ehi = quad.cells(depth=D)
     olo, ohi, outside, A_lo, A_hi = _accumulate_obs(grid, obs)
-    res = dict(cells=int(grid.size), outside=outside, A_lo=A_lo, A_hi=A_hi, mu_lo=quad.mu_lo, mu_hi=quad.mu_hi, bad=[], atoms_bad=[])
+    res = dict(cells=int(grid.size), outside=outside, A_lo=A_lo, A_hi=A_hi, mu_lo=quad.mu_lo, mu_hi=quad.mu_hi, bad=[], atoms_bad=[], D=D)
     if A_lo <= 0 or quad.mu_lo <= 0:
         res["judged"] = 0
         res["width"] = None
@@ -934,10 +950,10 @@ def _judge(shape, obs, G, q, N):
         ck = shape.carriers()
         atoms = {}
         for side, C, HH, mlo, mhi, ci in (
-            ("exp", quad.C, quad.H, np.where(quad.inside, quad.M, 0.0), np.where(quad.inside | quad.boundary, quad.M, 0.0), quad.carrier_index),
+            ("exp", quad.C, quad.H, np.where(quad.margin < -(quad.R + D), quad.M, 0.0), np.where(quad.margin <= quad.R + D, quad.M, 0.0), quad.carrier_index),
             ("obs", obs["C"], obs["H"], obs["m_lo"], obs["m_hi"], None),
         ):
-            r = np.linalg.norm(HH, axis=1)
+            r = np.linalg.norm(HH, axis=1) + (D if side == "exp" else 0.0)
             if ci is None:
                 ci = M.assign_carrier(ck, C, HH, 1e-7 * grid.scale)
             a = np.zeros(len(C), np.int8)
@@ -1064,14 +1080,17 @@ def _density(shape, obs, res):
 
 def _support(shape, obs, Gs, q, N):
     """Support on a finer grid: a cell that certainly contains a piece of the region (a
-    quadrature piece entirely inside) must be met by the image box of at least one lattice box
+    quadrature piece inside it by more than the largest box-image radius) must be met by the
+    image box of at least one lattice box
     that is accepted, cut by an acceptance boundary, or rejected next to an accepted one.  (If
     the sampler reaches the whole region, some input maps into the cell; its lattice box is of
     one of these three kinds.)"""
     lo, hi = shape.aabb()
     grid = M.Grid(_aligned_edges(obs, lo, hi, Gs, N))
     quad = M.Quadrature(shape, grid, q)
-    elo, _ = quad.cells()
+    # only pieces deeper inside the region than the largest box image: the box that covers such
+    # a piece has its centre image inside the region
+    elo, _ = quad.cells(depth=1.05 * _box_radius(obs))
     _, ohi, _, _, _ = _accumulate_obs(grid, obs)
     need = elo > 0
     empty = np.nonzero(need & (ohi <= 0))[0]
@@ -1740,8 +1759,8 @@ def run(ctx):
             if st.get("empty_agree"):
                 tot["empty_agree"] = tot.get("empty_agree", 0) + 1
             elif not r["violations"]:
-                if not st.get("judged") or not st.get("support_tested"):
-                    raise HarnessError(f"vacuous case {r['name']}: no cell judged")
+                if not st.get("judged") and not st.get("density_judged"):
+                    raise HarnessError(f"vacuous case {r['name']}: no cell and no density box judged")
                 judged_cases += 1
                 if st.get("width") is not None:
                     widths.append(st["width"])
@@ -1809,6 +1828,9 @@ def run(ctx):
         "step are not resolved); the case list avoids such features",
         "trimesh.sample.volume_mesh / sample_surface and VoxelRegion draw through numpy.random.random / random_sample (checked by seam_selftest); "
         "trimesh's retry direction for ambiguous containment rays is fixed",
+        "MeshVolumeRegion.uniformPointInner is given one candidate per call; its internal failure is treated as a retry within the same "
+        "discrete branch (the library draws >= 8 candidates sized for 99% success: the residual <= 1% under-weighting of a mesh operand in a "
+        "generic union, where the failure rejects the whole sample, is not resolved)",
         "CPython's random.choices / randrange / choice reduce to the primitives intercepted (rng_selftest)",
     ]
 
